@@ -13,6 +13,17 @@ TEXT = {
          "set construction order/duplicate-insensitive, contains/containsAll/containsAny/isEmpty, in/has/getAttr/is, like = declarative matcher for all patterns "
          "and strings); the model is the definition: any disagreement with Evaluator::interpret on the generated stream is a failing input.",
          "proof over a hand-written model; correspondence sampled through 6 routes (text, AST, EST, eval_expression, when, unless); error classes only"),
+ "C20": ("Lean theorems that the panic sites kept explicit in the mirrors are unreachable for ALL inputs: the index-form mirror of Pattern::wildcard_match "
+         "(`pattern[j]`, `text[i]`, fuel) never panics and equals the declarative matcher; `contains_at_least_two` always slices on a char boundary inside the "
+         "string; the `unwrap`s after the datetime/duration regex captures (<=4-digit numbers into u32, offset TimeDelta in range, ASCII-prefix slices) cannot "
+         "fail. Correspondence: the `like` boundary stream is answered by the compiled index-form mirror (a `panic:`/`fuel` reply would show in the diff). "
+         "Every other text/JSON/bytes entry point (policies, templates, expressions, both schema syntaxes, entities, contexts, EST, protobuf, FFI JSON) and "
+         "every pipeline parse -> {print, to_json, format, validate, authorize, link, encode} plus rendering of every error/warning is exercised by a "
+         "malformed-input stream in child processes under catch_unwind.",
+         "PARTIAL BY DESIGN: the theorems cover only the three mirrored components. For all unmodelled entry points (parser, CST->AST, error rendering, schema "
+         "code, EST, protobuf, FFI, formatter, validator, authorizer glue) the evidence is 'no panic on the explored inputs' — a count per entry point "
+         "(evidence coverage.distribution: ep.<entry point>.ok / .err, epgroup.<group>.inputs, pipeline.<stage>, render.*), NOT a theorem; nesting depth <= 48; "
+         "aborts/hangs are caught per child process"),
  "C07": ("Lean theorems over mirrors of the decimal/ip/datetime/duration parsers and operations (written-out recognisers + checked arithmetic); the model is the "
          "definition of 'exact': any disagreement with the real extension functions on generated strings/values is a failing input.",
          "proof over a hand-written model; std::net / chrono / regex are inside the implementation under check and are re-defined in the model"),
